@@ -1,5 +1,90 @@
 import GT.Base.JsonQ
-open Lean GT.J
+import GT.Model.CoxAut
+open Lean GT.J GT.CoxAut
 namespace GT.Driver.C07
-def ops : List (String × Handler) := []
+
+def formf (n : Nat) (j : Json) (k : String) : R (Vector (Vector ℚ n) n) := do
+  let a ← qArr2 (← field j k)
+  if a.size ≠ n then throw "bad shape"
+  if a.any (fun r => r.size ≠ n) then throw "bad shape"
+  return Vector.ofFn fun i => Vector.ofFn fun l => (a[i.1]!)[l.1]!
+
+def optNat : Option Nat → Json
+  | none => Json.null
+  | some t => toJson t
+
+def ofTable (A : Table) : Json := .arr (A.map fun row => Json.arr (row.map optNat).toArray).toArray
+
+def tablef (j : Json) (k : String) : R Table := do
+  let rows ← arr (← field j k)
+  rows.toList.mapM fun r => do
+    (← arr r).toList.mapM fun x => match x with
+      | .null => pure none
+      | x => do return some (← nat x)
+
+/-- neighbour table of the small roots as the function the discrete model takes; every index the
+Python would use is validated here, so the model's out-of-range defaults are never taken -/
+def nbOf {n : Nat} (roots : Array (Root ℚ n)) : R (Nat → Nat → Option Nat) := do
+  for r in roots do
+    for x in r.nb.toList do
+      match x with
+      | some t => if t ≥ roots.size then throw "neighbor-out-of-range"
+      | none => pure ()
+  let tab : Array (Array (Option Nat)) := roots.map fun r => r.nb.toArray
+  return fun p k => match tab[p]? with
+    | some row => (row[k]?).join
+    | none => none
+
+/-- `generate_automaton_coxeter_matrix` given the form matrix: small roots, then the automaton -/
+def automatonOp (j : Json) : R Json := do
+  let n ← natf j "n"
+  let form ← formf n j "form"
+  let eps ← qf j "eps"
+  let lex ← boolf j "lex"
+  let fuel := (← natf j "fuel")
+  let outer := (← natf j "outer")
+  let bfsFuel := (← natf j "bfs")
+  let roots ← findSmallRoots eps form fuel outer
+  if roots.size < n then throw "internal"
+  let nb ← nbOf roots
+  let rj : Json := .arr (roots.map fun r => Json.mkObj
+    [("v", ofQArr r.v.toArray), ("nb", .arr (r.nb.toArray.map optNat))])
+  match generateAutomaton nb roots.size n lex bfsFuel with
+  | none => throw "fuel"
+  | some (nodes, A) =>
+    return Json.mkObj [("roots", rj), ("table", ofTable A), ("nstates", toJson nodes.length)]
+
+/-- `aut.even_automaton()` on a transition table -/
+def evenOp (j : Json) : R Json := do
+  let rank ← natf j "rank"
+  let A ← tablef j "table"
+  match evenAutomaton A rank (← natf j "fuel") with
+  | none => throw "fuel"
+  | some g =>
+    return .arr (g.map fun (v, es) => Json.arr #[toJson v,
+      .arr (es.map fun ((a, b), t) => Json.arr #[toJson a, toJson b, toJson t]).toArray]).toArray
+
+/-- run a non-reducedness certificate through `checkCert` (sound by `GT.C07.checkCert_sound`):
+`M` is the Coxeter matrix with every infinite label written `0`; steps are `["b", pos]` / `["s", pos]` -/
+def certOp (j : Json) : R Json := do
+  let rows ← (← arr (← field j "M")).mapM fun r => do (← arr r).mapM nat
+  let M : Nat → Nat → Nat := fun a b => match rows[a]? with
+    | some r => (r[b]?).getD 0
+    | none => 0
+  let w ← (← arr (← field j "word")).mapM nat
+  if w.any (fun k => k ≥ rows.size) then throw "KeyError"
+  let steps ← (← arr (← field j "steps")).mapM fun s => do
+    let a ← arr s
+    if a.size ≠ 2 then throw "bad step"
+    let pos ← nat a[1]!
+    match ← str a[0]! with
+    | "b" => pure (CertStep.braid pos)
+    | "s" => pure (CertStep.square pos)
+    | _ => throw "bad step"
+  match checkCert M w.toList steps.toList with
+  | none => throw "cert-rejected"
+  | some w' => return Json.mkObj [("final", toJson w'), ("shorter", toJson (decide (w'.length < w.size)))]
+
+def ops : List (String × Handler) :=
+  [("c07.automaton", automatonOp), ("c07.even", evenOp), ("c07.cert", certOp)]
 end GT.Driver.C07
